@@ -715,7 +715,7 @@ def replay(pid, path):
 
 
 HOOK_COMMITS = ["ffc8b2b"]
-FIX_COMMITS = ["ca17dcd", "3401bdf", "db0baa0", "3af4e16", "b9b9933", "8154c20", "f1b4fb0", "9b44a2c", "d0885ee", "c8750dd", "2ca6488", "82641ae", "d771171", "a1dc9d0", "06d5e1b", "611037e"]
+FIX_COMMITS = ["ca17dcd", "3401bdf", "db0baa0", "3af4e16", "b9b9933", "8154c20", "f1b4fb0", "9b44a2c", "d0885ee", "c8750dd", "2ca6488", "82641ae", "d771171", "a1dc9d0", "06d5e1b", "611037e", "515e4a3"]
 NOT_YET = {}
 
 PROOF_NOTE = ("Trusted: Lean kernel; Semantics/*.lean as the specification; the correspondence harness and serialisers; "
@@ -950,7 +950,7 @@ PROPS = {
                       "(composition of C04 completion_tight, C07, C19, private renaming, assembly; hypothesis: rename_conflicting_symbols is the identity on the assembled problems); cannot_produce_public_part - "
                       "with simplification off the last clause is the same as 'no stable model of that program has the same extents of the non-private predicates' (uniqueness of the private extents without "
                       "private recursion, private_extents_unique, by induction on the rank in the private dependency graph); external_refutes_specification - the same for a specification (annotated formulas, every role and direction annotation the task accepts) against a program: refuted iff the interpretation satisfies the user-guide assumptions, the specification's universal assumptions and the program's private definitions and either (forward) satisfies the specification's forward premises (forward assumptions, universal/forward spec formulas) without being a stable model of the program, or (backward) is a stable model of the program and falsifies a universal/backward spec formula (specification_roles: which annotation plays which part; a backward-annotated assumption of the specification is dropped by the code); external_refutes_programs_with_placeholders / external_refutes_specification_with_placeholders - both statements for user guides that declare placeholders of any sort: a program with placeholders is read as the reference semantics prescribes, every placeholder replaced by the precomputed term the interpretation assigns to it (Program.substSym (phNu m J.fc)); rests on tauStar_substSym and completion_substSym (tau* and completion commute with the substitution of closed terms for symbolic constants; replace_placeholders is an instance) and sat_substSym_congr (only the values of the substituted terms matter); external_sound_with_outline - for EVERY accepted task (placeholders, proof outline with lemmas, inductive lemmas, definitions of any direction): if no emitted problem (outline problems and final problems) has a countermodel, no interpretation satisfying the user-guide assumptions witnesses a difference in a requested direction; rests on assembled_outline_sound (an accepted outline does not change what is claimed), C13 outline_sound and proofOutlineFrom_defsExt (accepted definitions can be made true by re-interpreting only the predicates they define). With an outline the converse is not claimed (a false lemma has a countermodel although the sides agree). The literal property was FALSE on the unchanged tree at two points: the missing-output defect (repaired; missing_output_now_refutable) and the private rename clash (repaired; rename_clash_now_separated; private_renaming_fresh: the names chosen for clashing private predicates are no predicates of the task and pairwise different, by pigeonhole on the injective family p, p1, p2, ...; "
-                      "one_interpretation_carries_both_readings: any extents for the two sides that agree on the public predicates are read off one interpretation, the program side through the renaming). Corpus witnesses of both are replayed on the implementation and reported if they ever fail again. every_accepted_program_task_sound / every_accepted_specification_task_sound - the property's conclusion about the programs alone for EVERY accepted task (placeholders of any sort, simplification on or off, proof outlines with lemmas, inductive lemmas and definitions): if rename_conflicting_symbols is the identity and no emitted problem has a countermodel, then in each requested direction every stable model of one program (read with the placeholder values, under the user-guide assumptions) has the same public part as some stable model of the other, resp. the program meets the specification and the specification admits only behaviours of the program; valid_problems_imply_external_equivalence / valid_problems_imply_specification_met - the same for tasks without an outline, with the side condition of the two-sided theorems; rests on private_definitions_satisfiable (without private recursion the private predicates always have extents satisfying their completed definitions: iteration of the supported operator, stable after rank+1 rounds), one_interpretation_carries_both_readings, and definitions_keep_their_role_under_simplification (the classic portfolio never changes the head predicate of a formula of a completed theory: none of the 15 rewrites touches an equivalence at the root or below one universal quantifier, and a constraint never acquires a head because tau* bodies contain no implication or equivalence and every rewrite preserves that) - so simplification cannot turn a private definition into a conjecture or a constraint into an assumption.",
+                      "one_interpretation_carries_both_readings: any extents for the two sides that agree on the public predicates are read off one interpretation, the program side through the renaming). Corpus witnesses of both are replayed on the implementation and reported if they ever fail again. every_accepted_program_task_sound / every_accepted_specification_task_sound - the property's conclusion about the programs alone for EVERY accepted task (placeholders of any sort, simplification on or off, proof outlines with lemmas, inductive lemmas and definitions): if no emitted problem has a countermodel (NO side condition: renaming_is_irrelevant_for_validity - since fix 611037e rename_conflicting_symbols renames propositional predicates to free names, and an emitted problem has a countermodel as soon as the parts it was assembled from can be refuted; external_sound_no_side_condition), then in each requested direction every stable model of one program (read with the placeholder values, under the user-guide assumptions) has the same public part as some stable model of the other, resp. the program meets the specification and the specification admits only behaviours of the program; valid_problems_imply_external_equivalence / valid_problems_imply_specification_met - the same for tasks without an outline, with the side condition of the two-sided theorems; rests on private_definitions_satisfiable (without private recursion the private predicates always have extents satisfying their completed definitions: iteration of the supported operator, stable after rank+1 rounds), one_interpretation_carries_both_readings, and definitions_keep_their_role_under_simplification (the classic portfolio never changes the head predicate of a formula of a completed theory: none of the 15 rewrites touches an equivalence at the root or below one universal quantifier, and a constraint never acquires a head because tau* bodies contain no implication or equivalence and every rewrite preserves that) - so simplification cannot turn a private definition into a conjecture or a constraint into an assumption.",
         "level_note": PROOF_NOTE,
         "technique": "Lean 4 (pipeline model, counterexample theorems by kernel evaluation, decomposition theorems) + end-to-end differential correspondence",
         "design_ref": "DESIGN.md 6/C02",
@@ -971,7 +971,7 @@ PROPS = {
                       "induction_sound (the two obligations imply F for every integer >= n, for every formula incl. rebinding of the induction variable), "
                       "inductiveLemma_shape, definition_accepted_implies, definition_conservative (every interpretation can be changed on the defined predicate alone so that an accepted "
                       "definition holds - so no accepted definition makes a claim about the task's predicates available), outline_sequencing (lemma k's problems use the direction's axioms and the "
-                      "consequences of lemmas < k) proved; head arguments pairwise distinct since fix c8750dd; definition_entry_is_fresh / lemma_entry_records_predicates: since fix d771171 a definition's predicate occurs in no earlier entry of the outline, lemmas included (the former literal-reading finding, lemma_before_definition_refused).",
+                      "consequences of lemmas < k) proved; head arguments pairwise distinct since fix c8750dd; definition_entry_is_fresh / lemma_entry_records_predicates: since fix d771171 a definition's predicate occurs in no earlier entry of the outline, lemmas included (the former literal-reading finding, lemma_before_definition_refused). outline_sound_no_side_condition - the same from validity alone, without the hypothesis that rename_conflicting_symbols is the identity on the outline problems (Proofs/RenameValid valid_single, Proofs/ExternalValid outline_sound_valid).",
         "level_note": PROOF_NOTE,
         "technique": "Lean 4 proof (integer induction + substitution lemma; fold invariants) + differential correspondence",
         "design_ref": "DESIGN.md 6/C13",
@@ -1015,7 +1015,7 @@ PROPS = {
         "level_text": "Full for the model, no hypothesis on the text: accepted_text_roundtrip (for every accepted text: the printed tree is accepted, parses to the identical tree and prints to itself) = roundtrip + accepted_text_wf (every tree the parser builds has names of the grammar's lexical shape, none of them `not`: since fix a1dc9d0 `not` is no name, not_is_no_name); roundtrip (parseProgram (printProgram p) = some p) and print_parse_print for every program whose names have the grammar's lexical shape and are not `not` "
                       "(Program.WF) - every operator nesting and associativity, unary minus on numerals vs negative numerals, intervals on either side, all head kinds, empty bodies, constraints. Proved at the character "
                       "level (white space skipping, the look-aheads !integer / !negation / !\".\", ordered choice comparison-before-literal) and at the pair level (pratt_flat_eq: pest's Pratt algorithm inverts the printer's "
-                      "parenthesisation). Printer and parser models are tied to the Rust code by exact correspondence. The formerly excluded case (identifier `not`) was a genuine defect, repaired by fix a1dc9d0.",
+                      "parenthesisation). Printer and parser models are tied to the Rust code by exact correspondence. The formerly excluded case (identifier `not`) was a genuine defect, repaired by fix a1dc9d0. accepted_text_roundtrip_checked - the same for the parser with the numeral-range check of fix 515e4a3 (the parser as it is).",
         "level_note": PROOF_NOTE + " pest itself (PEG matching, implicit skipping, Pratt parser) is modelled from its documentation and source (pest 2.8.2) and tied by the asp_parse correspondence; accepted_text_wf proves that the tree of "
                       "every accepted text is well-formed, so accepted_text_roundtrip needs no hypothesis.",
         "technique": "Lean 4 proof (character-level parser inversion by induction on terms/atoms/bodies/rules/programs + Pratt inversion) + differential correspondence (printer text, parser trees) + round-trip exploration on the real parser",
@@ -1035,7 +1035,7 @@ PROPS = {
                       "printer on every safe tree - names of the grammar's lexical shape, a guard in every comparison, a variable in every quantifier, no atomic formula starting with the name `not`; formulaL_printL by induction on "
                       "formula size with the wrong-alternative lemmas: `p <- q` is not `p < -q`, `(l) op r` is not a parenthesised formula, keyword-named constants `forall(a)`, `exists = 3`, `not$i + 1 = 2`) with parse*_safe "
                       "(every tree in the parser's image is safe). Pair level: pratt_inverts_formula_parenthesisation, pratt_inverts_integer_term_parenthesisation. The model is tied to the real pest parser and printers by the "
-                      "print and fol_parse correspondences on every run. Four genuine defects repaired (db0baa0, 3af4e16, d0885ee, 2ca6488 - the last found by weakening the theorem's hypothesis to the parser's image).",
+                      "print and fol_parse correspondences on every run. Four genuine defects repaired (db0baa0, 3af4e16, d0885ee, 2ca6488 - the last found by weakening the theorem's hypothesis to the parser's image). accepted_*_roundtrip_checked - the same for the parsers with the numeral/arity range check of fix 515e4a3 (the parsers as they are).",
         "level_note": PROOF_NOTE + " pest itself is modelled from its documentation and source (2.8.2) and tied by the fol_parse correspondence.",
         "technique": "Lean 4 proof (character-level inversion of the PEG/Pratt parser model on printed text by induction on formula size; image of the parser by fuel induction; Pratt inversion) + differential correspondence "
                      "(printer text, parser trees) + round-trip exploration on the real parser",
@@ -1050,7 +1050,7 @@ PROPS = {
                 "(b) the real CLI on byte strings obtained by mutating the repo's example files and adversarial seeds (token deletion / duplication / swap, numeral inflation to the integer limits, operator soup, "
                 "unbalanced and deep parentheses, empty and comment-only files) through parse / translate / simplify / analyze / verify --no-proof-search: outcome class output | error+non-zero exit | panic | signal | timeout(20 s)",
         "level_text": "Partial: substitute_panic_free (no panic on sort-compatible arguments, for every formula and every renaming), globals_panic_iff, tptp_panic_free, external_panic_only_overflow (the whole external-equivalence pipeline - checks, tau*, placeholder replacement, completion, simplification, outline construction, assembly - panics only on the overflow of the global-variable index; completion_of_tau_star_exists: the expect in theory_translate is unreachable) proved on the model; two crashes repaired (ca17dcd, 3401bdf); "
-                      "two crash classes remain as known findings (numerals beyond the integer type, global index overflow); stack depth, allocation and hangs are not expressible in the model and are covered by the CLI exploration only.",
+                      "two crash classes remain as known findings (numerals beyond the integer type, global index overflow); stack depth, allocation and hangs are not expressible in the model and are covered by the CLI exploration only. out_of_range_refused / accepted_numerals_in_range - since fix 515e4a3 the parser refuses a text whose numerals or arities do not fit the integer types (before: panic in the tree builder), so every numeral of an accepted program fits isize; the parser models used in the correspondence are the checked ones (grammar + range check).",
         "level_note": PROOF_NOTE + " The pest parsers and the tree builders' integer parsing are exercised, not modelled.",
         "technique": "Lean 4 proof (panic-site predicates of the model) + differential correspondence of panics + CLI mutation exploration",
         "design_ref": "DESIGN.md 6/C16",
